@@ -72,7 +72,8 @@ def check_curve(ctx, params, grid, mean, kappa, et, inp):
     try:
         with sim.record_quad() as calls:
             sim.dirty_heap(ctx.rng, len(g))
-            t = [float(v) for v in srm.compute_recession_curve(sy, Td, g, mean, kappa, et)]
+            with common.time_limit(120):       # (a curve takes a second or two)
+                t = [float(v) for v in srm.compute_recession_curve(sy, Td, g, mean, kappa, et)]
     except Exception as e:  # noqa
         ctx.violation("impl-violation", "c18Holds", {"input": dict(inp, grid_layout={"dtype": str(g.dtype), "strides": list(g.strides)}),
                       "impl": repr(e)[:300], "oracle": {"name": "c18Holds", "result": False, "witness": {
@@ -178,6 +179,15 @@ def run(ctx):
         if len(grid) < 3:
             continue
         kappa, et = rng.choice([(0.0, 3.5), (1.5e-3, 0.0), (1.5e-3, 4.0), (2e-4, 1.0)])
+        if k % 3 == 1 and params["transmissivity"]["type"] == "spline":
+            # the grid reaches the lowest conductivity knot and below it (where transmissivity IS the stated minimum), the
+            # minimum typed as a whole number (`minimum_transmissivity_m2_d: 2` is an int after yaml.safe_load), and the
+            # curvature term large enough to matter
+            tk0 = float(params["transmissivity"]["zeta_knots_mm"][0])
+            params["transmissivity"]["minimum_transmissivity_m2_d"] = rng.randint(1, 9)
+            grid = sorted(set(z for z in grid if z > tk0) | {tk0 - 25.0, tk0 - 3.0, tk0})
+            kappa, et = rng.choice([(1.5e-3, 0.0), (1.5e-3, 0.5), (1.0e-2, 1.0)])
+            ctx.count("grids_reaching_below_the_lowest_conductivity_knot_with_an_integer_minimum")
         mean = rng.uniform(0, 30)
         ctx.case(("c18", str(params), tuple(grid), kappa, et), True)
         check_curve(ctx, params, grid, mean, kappa, et,
